@@ -195,7 +195,13 @@ pub fn run_c11(tier: Tier) -> ! {
     }
     let mut t = w4props::Totals::default();
     w2_explore(cfgs, &mut t);
-    finish_w2(t, "C11", tier, vec!["c11_initiated_as_holder", "c11_pass_repeated", "c11_successor_removed", "c11_claim"])
+    // part (2): forged token offers inside running rings of real stations
+    let (runs, polls) = crate::props::w3props::c11_forged_offers(tier);
+    t.states += runs;
+    t.transitions += polls;
+    t.validated += runs;
+    t.per_world.push(json!({"world": "rings of real stations: a forged token from a non-predecessor to every station, once and twice, after every telegram of a window of HSA+3 rotations", "executions": runs, "polls": polls}));
+    finish_w2(t, "C11", tier, vec!["c11_initiated_as_holder", "c11_pass_repeated", "c11_successor_removed", "c11_claim", "c11_ring_forged_offer_run", "c11_ring_second_offer_delivered"])
 }
 
 fn finish_w2(t: w4props::Totals, prop: &str, tier: Tier, witnesses: Vec<&'static str>) -> ! {
